@@ -1,5 +1,5 @@
 (* Lemmas about SelfCal/WeightModel.v. *)
-Require Import List Arith ZArith Lia.
+Require Import List Arith ZArith QArith Qcanon Lia.
 Import ListNotations.
 Require Import LV.Lin.MatL LV.SelfCal.WeightModel.
 
@@ -150,8 +150,7 @@ Proof.
   unfold dof, dof_systems. rewrite dof_leakage_acc, dof_systems_acc. nia.
 Qed.
 
-(* an exactly determined calibration without leakage samples has no degree of freedom
-   (the solver then reports p = 0) *)
+(* an exactly determined calibration without leakage samples has no degree of freedom *)
 Lemma dof_exactly_determined unknowns k :
   dof unknowns (repeat unknowns k) [] = 0.
 Proof.
@@ -162,3 +161,19 @@ Proof.
   rewrite H. unfold zsum; cbn [map fold_right]. lia.
 Qed.
 End Dof.
+
+(* ---- no degrees of freedom: never rejected ---- *)
+Lemma exactly_determined_never_rejected (tail : Z -> Qc -> Qc) (unknowns : Z) (k : nat) (chisq limit : Qc) :
+  (limit <= 1)%Qc ->
+  pvalue_of tail (dof unknowns (repeat unknowns k) []) chisq = 1%Qc /\
+  rejected (pvalue_of tail (dof unknowns (repeat unknowns k) []) chisq) limit = false.
+Proof.
+  intros Hl. rewrite dof_exactly_determined. unfold pvalue_of. simpl. split; [reflexivity|].
+  unfold rejected. destruct (Qclt_le_dec 1 limit) as [H|H]; [|reflexivity].
+  exfalso. exact (Qclt_not_le _ _ H Hl).
+Qed.
+
+(* with at least one degree of freedom the verdict is that of the tail function *)
+Lemma overdetermined_uses_tail (tail : Z -> Qc -> Qc) (df : Z) (chisq : Qc) :
+  (1 <= df)%Z -> pvalue_of tail df chisq = tail df chisq.
+Proof. intros H. unfold pvalue_of. destruct (Z.ltb df 1) eqn:E; [apply Z.ltb_lt in E; lia | reflexivity]. Qed.
